@@ -608,6 +608,7 @@ def giant_vdi(rng, dense):
         o = b * bs + rng.choice([0, 512, bs - 4096])
         probes.append((o, 4096, patterns.pat(0, data_offset + pos[b] * bs + (o - b * bs), 4096)))
     probes.append(((nb // 3) * bs + 99, 5000, bytes(5000)))
+    probes.append((first * bs - 8192, 32768, bytes(8192) + patterns.pat(0, data_offset, 24576)))    # (buffer-aligned: served by one backend request)
     probes.append((first * bs - 4096, 20480, bytes(4096) + patterns.pat(0, data_offset, 16384)))
     meta = len(hdr) + 4 * nb
     return Giant("vdi", [vf], lambda: VDI(vf), nb * bs, probes, meta, note={"blocks": nb})
